@@ -1,5 +1,6 @@
 import FGVerif.Proofs.C01Lex
 import FGVerif.Proofs.C01Sim
+import FGVerif.Proofs.C01Ref
 /-!
   C01 — the pattern parser is faithful.
 
@@ -21,6 +22,12 @@ import FGVerif.Proofs.C01Sim
   * `C01.ring_table_pairs` (Proofs/C01Rings.lean) the open/close table is the declarative pairing
   * `C01.dot_never_bonds`, `C01.all_declared_orders_accepted`, `C01.quadruple_declared`
   * `C01.offset_shift`     (Proofs/C01Shift.lean)
+  * `C01.parse_faithful_ref` / `parse_nodes_ref` / `parse_edges_ref`: the same statements against the
+                           specification over the HAND-WRITTEN reference tables (`WFRef`, `denoteRef`,
+                           Model/C01Ref.lean) — via `WF_eq_WFRef`, `denote_eq_denoteRef` (Proofs/C01Ref.lean),
+                           which rest on the table obligations `tbl_atom_reachable`,
+                           `tbl_atom_alphabet_documented`, `tbl_bond_orders_documented`.  These are the
+                           statements the driver's executable specification corresponds to.
 -/
 namespace C01
 
@@ -229,6 +236,26 @@ theorem parse_edges (c : Chain) (off : Int) (aam multi : Bool) (h : WF multi c =
   have hc : WFcore c = true := by simp only [WF, Bool.and_eq_true] at h; exact h.1.1
   exact ⟨_, parse_faithful_core c off aam multi hc, denote_hasEdge c off aam multi hc⟩
 
+/-! ### the same, against the documented syntax (reference tables, nothing regenerated) -/
+
+/-- **C01 against the documented syntax.**  For every syntax tree that is a valid writing of the
+    documented syntax (`WFRef`: reference atom alphabet, longest symbol wins, reference bond symbols),
+    parsing its text yields exactly the graph the text denotes under the documented bond orders. -/
+theorem parse_faithful_ref (c : Chain) (off : Int) (aam multi : Bool) (h : WFRef multi c = true) :
+    parse ⟨multi, aam⟩ (renderStr c) off = .ok (denoteRef c off aam multi) := by
+  rw [← denote_eq_denoteRef]
+  exact parse_faithful c off aam multi (by rw [WF_eq_WFRef]; exact h)
+
+theorem parse_nodes_ref (c : Chain) (off : Int) (aam multi : Bool) (h : WFRef multi c = true) :
+    ∃ g, parse ⟨multi, aam⟩ (renderStr c) off = .ok g ∧ g.nodes = denoteNodes c off aam ∧ g.multi = multi :=
+  parse_nodes c off aam multi (by rw [WF_eq_WFRef]; exact h)
+
+theorem parse_edges_ref (c : Chain) (off : Int) (aam multi : Bool) (h : WFRef multi c = true) :
+    ∃ g, parse ⟨multi, aam⟩ (renderStr c) off = .ok g ∧
+      ∀ x y, g.hasEdge x y = edgeBetween (denoteEdgesRef c off) x y := by
+  rw [← denoteEdges_eq_denoteEdgesRef]
+  exact parse_edges c off aam multi (by rw [WF_eq_WFRef]; exact h)
+
 /-! ### corollaries -/
 
 /-- **a component separator never creates an edge**: a link or ring closure written with `.` adds
@@ -329,6 +356,9 @@ example : (denoteNodes ex12 3 true).map (fun n => (n.1, n.2.symbol, n.2.aam)) =
     [(3, some "C", some 4), (4, some "O", some 5), (5, some "c", some 6), (6, some "c", some 7), (7, some "c", some 8),
      (8, some "c", some 9), (9, some "c", some 10), (10, some "c", some 11), (11, some "N", some 12),
      (12, some "#", some 13), (13, some "C", some 14), (14, some "R", some 15)] := by decide
+example : WFRef false ex12 = true ∧ WFRef true ex12 = true := by decide
+example : parse ⟨false, true⟩ (renderStr ex12) 3 = .ok (denoteRef ex12 3 true false) :=
+  parse_faithful_ref ex12 3 true false (by decide)
 /-- lexer non-vacuity -/
 example : lex "C$C{a,b}<,2>Sn12".toList =
     [.atom ['C'], .bond ['$'], .atom ['C'], .label ['a', ',', 'b'], .rc [] ['2'], .atom ['S', 'n'], .ring ['1', '2']] := by decide
